@@ -313,6 +313,21 @@ def skInverseTransformInPlace : Skel :=
   ⟨[loadCache 10 0 0, load 11 10 0, copyDict 12 11, move 13 1, writeData 13 1, alloc 14, alloc 15,
     setFields 15 [12, 14]], 15⟩
 
+/-- What the OWNER of a result may do to it afterwards — container methods of the returned object
+(`result.pop()`, `result.reverse()`, `result.append(…)`, `del result[k]`, `popitem`): an in-place
+write to the cell of the result. -/
+def ownerEdits (ret : Nat) : List Stmt := [popKey ret 0, setFields ret []]
+
+/-- the result is the caller's own: the method followed by the owner's edits still passes the
+check, i.e. the returned variable holds a cell allocated inside the call -/
+def resultOwned (sk : Skel) : Bool := check (sk.body ++ ownerEdits sk.ret) []
+
+/-- A method that hands back the input container itself: `return self` (the `to_grid` fast path seeded
+in round 6), and `MultivariateFunctionalData.copy()` of the current tree — `UserList.copy` calls
+`self.__class__(self)` and the constructor stores its argument as `.data` without copying, so the
+list the "copy" works on IS the original object. -/
+def skReturnsInputContainer : Skel := ⟨[move 40 0], 40⟩
+
 /-- the table used by the driver -/
 def skelOf : String → Option Skel
   | "copy_argvals" => some skCopyArgvals
@@ -335,6 +350,7 @@ def skelOf : String → Option Skel
   | "multi_rescale" => some skMultiRescale
   | "multi_to_basis" => some skMultiToBasis
   | "multi_to_grid" => some skMultiToGrid
+  | "returns_input_container" => some skReturnsInputContainer
   | "estimator_fit" => some skEstimatorFit
   | "estimator_apply" => some skEstimatorApply
   | "mfpca_fit" => some skMFPCAFit
